@@ -496,32 +496,47 @@ protected:
             m_freeEntries.push_back(Entry(allocate(1)));
         }
 
-        // insert a new entry as the first position in the bucket
-        Entry&  newEntry = m_freeEntries.back();
-        newEntry.erased = false;
+        // Until its key and value have been constructed, the new
+        // entry stays in the list of free entries and is marked as
+        // erased, so a failure leaves the map as it was: a bucket
+        // can refer to an erased entry, find() ignores those.
+        const EntryListIterator     theNewEntry = --m_freeEntries.end();
+
+        theNewEntry->erased = true;
+
+        m_buckets[index].push_back(theNewEntry);
 
         FirstConstructor::construct(
-            const_cast<key_type*>(&newEntry.value->first),
+            const_cast<key_type*>(&theNewEntry->value->first),
             key,
             *m_memoryManager);
 
-        if (data != 0)
+        try
         {
-            SecondConstructor::construct(
-                &newEntry.value->second,
-                *data,
-                *m_memoryManager);
+            if (data != 0)
+            {
+                SecondConstructor::construct(
+                    &theNewEntry->value->second,
+                    *data,
+                    *m_memoryManager);
+            }
+            else
+            {
+                 SecondConstructor::construct(
+                     &theNewEntry->value->second,
+                     *m_memoryManager);
+            }
         }
-        else
+        catch(...)
         {
-             SecondConstructor::construct(
-                 &newEntry.value->second,
-                 *m_memoryManager);
+            const_cast<key_type&>(theNewEntry->value->first).~key_type();
+
+            throw;
         }
 
-        m_entries.splice(m_entries.end(), m_freeEntries, --m_freeEntries.end());
+        theNewEntry->erased = false;
 
-        m_buckets[index].push_back(--m_entries.end());
+        m_entries.splice(m_entries.end(), m_freeEntries, theNewEntry);
 
         ++m_size;
 
